@@ -71,6 +71,10 @@ def partition_text(ctx, rule):
     ctx.ob(rule, 'writer.partition_on_columns:chunk-of-null-keys-only-has-no-groups', bool(gb) and bool(early) and early[0].lineno < gb[0].lineno,
            'grouping a chunk whose keys are all null fails for categorical keys (observed=False): whether a frame can be written '
            'depends on how it is cut into row groups', wr.loc(f))
+    drill = [st for st in f.body if isinstance(st, ast.If) and norm(st.test) == 'not with_field' and "'dir%i'" in norm(ast.Module(body=st.body, type_ignores=[]))
+             and any(isinstance(r, ast.Raise) for r in ast.walk(st))]
+    ctx.ob(rule, 'writer.partition_on_columns:drill-level-names-are-not-taken-by-data-columns', len(drill) == 1,
+           'the levels are read back as dir0, dir1 ...: a data column of that name is hidden by the level', wr.loc(f))
     g = ut.func('_val_to_num')
     ts = [st for st in g.body if isinstance(st, ast.Try) and any(isinstance(c, ast.Call) and callee(c) == 'pd.Timestamp' for c in ast.walk(st))]
     guard = [st for st in g.body if isinstance(st, ast.If) and 'isdigit' in norm(st.test) and any(isinstance(r, ast.Return) and isinstance(r.value, ast.Name) for r in st.body)]
@@ -188,6 +192,13 @@ def dtype_lookup(ctx, rule):
            'computed only inside `if self._base_dtype is None`: a handle given dtypes= reports zones it does not apply', api.loc(f))
     ctx.ob(rule, 'api._dtypes:pandas-entries-keyed-by-the-parquet-column-name', "c.get('field_name')" in norm(f),
            "keyed by c['name'], which is None for an unnamed index level", api.loc(f))
+    # the output views are looked up by the readers under the parquet column names (text): dataframe.empty keys them by
+    # the text of the column label, whatever dtype the labels were given
+    df = ctx.repo['dataframe']
+    e = df.func('empty')
+    keyed = [st for st in ast.walk(e) if isinstance(st, ast.Assign) and norm(st.targets[0]) == 'col' and 'df.columns[' in norm(st.value)]
+    ctx.ob(rule, 'dataframe.empty:views-keyed-by-the-text-of-the-column-label', bool(keyed) and all(norm(st.value).startswith('str(') for st in keyed),
+           '%s: with integer column labels (recorded by other writers) the views are keyed by numbers and no reader finds them' % [norm(st)[:50] for st in keyed], df.loc(e))
 
 
 def append_layouts(ctx, rule):
@@ -230,6 +241,9 @@ def kind_of_appended_values(ctx, rule):
     r = [x for x in walk_no_nested(f) if isinstance(x, ast.If) and "('b', 'M', 'm')" in norm(x.test) and any(isinstance(y, ast.Raise) for y in x.body)]
     ctx.ob(rule, 'api.write_row_groups:kind-of-boolean-and-time-columns-checked-before-writing', len(r) == 1 and "'tz'" in norm(r[0].test),
            'text or 2 appended to a boolean column read back as True, 5 appended to a datetime column as 1970-01-01T00:00:00.000000005', api.loc(f))
+    ctx.ob(rule, 'api.write_row_groups:object-columns-are-left-to-the-value-by-value-check', len(r) == 1 and "'O'" in norm(r[0].test),
+           'an object column of booleans (object_encoding bool) is a legitimate source for a boolean column; refusing every '
+           'dtype whose kind differs turns valid appends away', api.loc(f))
     g = wr.func('convert')
     rng = [x for x in walk_no_nested(g) if isinstance(x, ast.If) and 'data.values.min()' in norm(x.test) and any(isinstance(y, ast.Raise) for y in x.body)]
     cfg = CFG(g)
@@ -279,3 +293,34 @@ def write_conversions(ctx, rule):
     h = ut.func('reset_row_idx')
     ctx.ob(rule, 'util.reset_row_idx:unnamed-index-level-gets-the-reserved-name', '__index_level_%d__' in norm(h) and 'name is None' in norm(h),
            'assign(**{None: ...}) raises: a frame whose MultiIndex has an unnamed level cannot be written', ut.loc(h))
+
+
+def thrift_reader_forms(ctx, rule10, rule12):
+    """(R10.17) read_thrift: a field header whose high nibble (the id delta) is 0 is the long form - the field id follows
+    as a zigzag varint; the loop must have a branch for it (known finding K10e: it adds the nibble to the running id
+    whatever it is).  (R12.6) ThriftObject.__setattr__: the elements of an assigned list are cast to ThriftObject only
+    after a type test (known finding K12e: `<ThriftObject>v` on plain values crashes the interpreter)."""
+    cen = ctx.repo['cencoding']
+    f = cen.func('read_thrift')
+    loops = [x for x in f.body if isinstance(x, ast.While)]
+    if not loops:
+        raise AnalysisError('read_thrift: field loop not found')
+    adds = [x for x in ast.walk(loops[0]) if isinstance(x, ast.AugAssign) and norm(x.target) == 'id' and isinstance(x.op, ast.Add)]
+    longform = any(isinstance(x, ast.If) and ('240' in norm(x.test) or '0b11110000' in norm(x.test) or '>> 4' in norm(x.test)) and '== 0' in norm(x.test)
+                   for x in ast.walk(loops[0]))
+    if rule10:
+      ctx.ob(rule10, 'cencoding.read_thrift:long-form-field-header-is-parsed', bool(adds) and longform,
+             'the id delta nibble is added to the running id unconditionally (`%s`): a header with delta 0 carries the id in the '
+             'bytes that follow, which are then read as the value' % (norm(adds[0])[:50] if adds else '?'), cen.loc(loops[0]))
+    if not rule12:
+        return
+    g = cen.func('ThriftObject.__setattr__')
+    casts = [c for c in ast.walk(g) if isinstance(c, ast.Call) and norm(c.func) == '_cast' and c.args and norm(c.args[0]) == "'ThriftObject'"]
+    if not casts:
+        raise AnalysisError('ThriftObject.__setattr__: cast of list elements not found')
+    for c in casts:
+        comp = [x for x in ast.walk(g) if isinstance(x, (ast.ListComp, ast.GeneratorExp)) and any(c is y for y in ast.walk(x))]
+        tested = any('isinstance' in norm(i) and 'ThriftObject' in norm(i) for x in comp for gen in x.generators for i in gen.ifs) or \
+            any(isinstance(x, ast.IfExp) and 'isinstance' in norm(x.test) and any(c is y for y in ast.walk(x.body)) for x in ast.walk(g))
+        ctx.ob(rule12, 'cencoding.ThriftObject.__setattr__:list-elements-cast-only-after-a-type-test', tested,
+               '`%s` for every element of the assigned list: a list of str or int is not a list of ThriftObject' % norm(c)[:40], cen.loc(c))
